@@ -16,6 +16,8 @@ from verifkit import Infra
 
 def run(ctx):
     q = ctx.quick
+    if ctx.replay:
+        return run_cases(ctx, {})
     # ---- 1. the catalogue itself ---------------------------------------------------------------------------------
     r = ctx.tlc_must_hold("rules", "MC_BlockRules", cfg="MC_BlockRules_quick.cfg" if q else "MC_BlockRules_thorough.cfg",
                           workers=4 if q else 8, timeout=900 if q else 3000, label="catalogue on the abstract universe")
@@ -29,7 +31,12 @@ def run(ctx):
     ctx.cov["catalogue_entries"] = len(spec_cat)
     ctx.cov["catalogue_teeth"] = "wrong claims refuted by TLC: " + ", ".join(teeth)
 
+    run_cases(ctx, spec_cat)
+
+
+def run_cases(ctx, spec_cat):
     # ---- 2. real blocks -----------------------------------------------------------------------------------------
+    q = ctx.quick
     seed = ctx.seed
     only = []
     if ctx.replay:
